@@ -292,11 +292,15 @@ def main(argv=None):
                 if nat.get("status") == "OK":
                     v["reach_witness"] = reach["cex"]
                     v["functions"] = nat.get("functions", [])
-                    if nat.get("reproduced") and v["verdict"] == "CONFIRMED":
-                        # body is False natively on the witness although the solver confirmed it: engine model differs
-                        v["verdict"] = "ARTEFACT"
-                        v["detail"] = "reachability witness %r violates the body natively (engine model unsound here)" % (reach["cex"],)
+                    if nat.get("reproduced"):
+                        # the body is False NATIVELY on the reachability witness although the engine did not refute the obligation: the
+                        # engine's model hides it (e.g. CrossHair skips functools.lru_cache).  It reproduces on the real code, so it is
+                        # reported; the solver verdict for this obligation is void.
+                        v["verdict"] = "REFUTED"
+                        v["detail"] = "found by the native replay of the reachability witness; the engine model does not show it"
                         v["cex"] = reach["cex"]
+                        v["native"] = {k: nat.get(k) for k in ("result", "exc")}
+                        v["replay_path"] = write_replay_file(pid, ob.name, mpaths[ob.module], body_fn, reach["cex"], nat, v["detail"])
                 else:
                     v["detail"] = "reach replay: " + str(nat.get("detail"))
             elif v["verdict"] == "CONFIRMED":
